@@ -27,10 +27,23 @@ def setup():
 
     from vlib import hexprov, refenc
 
-    hexprov.install(CM, EN)
+    import suit_generator.input_output as IO
+
+    hexprov.install(CM, EN, IO)
     # error-message formatting: pretty_format_obj() yaml-dumps the offending object (C code: realizes symbolic leaves and
     # enumerates them).  It only feeds exception texts; stubbed to a constant ("formatting and logging get empty bodies").
     CM.PrettyPrintHelperMixin.pretty_format_obj = staticmethod(lambda obj: "<object>")
+    # _convert_version_part defines a nested Enum class: a class body cannot be created under the tracer (its namespace becomes a
+    # CrossHair map).  Version strings in these harnesses are concrete; the conversion runs untraced (C20 decides it with E2).
+    from crosshair.tracers import NoTracing as _NT
+
+    _orig_cvp = MF.SuitComponentVersion.__dict__["_convert_version_part"].__func__
+
+    def _cvp(part):
+        with _NT():
+            return _orig_cvp(part)
+
+    MF.SuitComponentVersion._convert_version_part = staticmethod(_cvp)
     SE.hashes = stubs.HashesProxy(SE.hashes)
     proxy = stubs.UuidProxy(real_uuid)
     MF.uuid = proxy
